@@ -1401,13 +1401,18 @@ func FunExpr(query *Query, current Map, expr *sqlparser.FuncExpr, opts ...ExprOp
 				return nil, e
 			}
 			var rs any
-			var err error
 			query.wg.Add(1)
 			go func() {
+				var err error
 				rs, err = function(query, current, nil, slice)
+				if err != nil {
+					if query.options.errors != nil {
+						query.options.errors(err)
+					}
+				}
 				query.wg.Done()
 			}()
-			return &rs, err
+			return &rs, nil
 		}
 	case "spin":
 		{
